@@ -626,6 +626,28 @@ func ruleVD9(c *Ctx) {
 
 // ------------------------------------------------------------------ VD10
 
+// mapUpdatesOf: every m[k] = v in the module whose map operand is (resolves to) the map value mm, including updates
+// made through a context-struct field or a helper parameter that holds it.
+func (c *Ctx) mapUpdatesOf(mm ssa.Value) []*ssa.MapUpdate {
+	if c.mapUpd == nil {
+		c.mapUpd = map[ssa.Value][]*ssa.MapUpdate{}
+		for _, fn := range c.Fns {
+			eachInstr(fn, func(r instrRef) {
+				if mu, ok := r.In.(*ssa.MapUpdate); ok {
+					m := resolve(mu.Map)
+					if prm, isPrm := m.(*ssa.Parameter); isPrm {
+						if args := c.argValues(prm.Parent(), paramIndex(prm)); len(args) == 1 {
+							m = resolve(args[0])
+						}
+					}
+					c.mapUpd[m] = append(c.mapUpd[m], mu)
+				}
+			})
+		}
+	}
+	return c.mapUpd[resolve(mm)]
+}
+
 func ruleVD10(c *Ctx) {
 	ns := c.anchor("newShortID")
 	if ns == nil {
@@ -697,11 +719,7 @@ func ruleVD10(c *Ctx) {
 			if mm, ok := a.(*ssa.MakeMap); ok && want == "Tasks" {
 				// working set: seeded by a range over loaded graph.Tasks, extended with each minted id
 				seeded, extended := false, false
-				for _, r := range *mm.Referrers() {
-					mu, ok := r.(*ssa.MapUpdate)
-					if !ok {
-						continue
-					}
+				for _, mu := range c.mapUpdatesOf(mm) {
 					if ex, ok := mu.Key.(*ssa.Extract); ok {
 						if nx, ok := ex.Tuple.(*ssa.Next); ok {
 							if rg, ok := nx.Iter.(*ssa.Range); ok {
@@ -1054,8 +1072,32 @@ func ruleVD13(c *Ctx) {
 	fn := c.Name(cb)
 	var epic, task *Emission
 	other := ""
+	unit := c.unitOf(cb)
+	inUnit := map[*ssa.Function]bool{}
+	for _, g := range unit {
+		inUnit[g] = true
+	}
+	// siteLoops: is the emission executed repeatedly - its own block, or the call in the callback that leads to it, lies in a loop
+	siteLoops := func(em *Emission) bool {
+		if inCycle(em.Call.Block()) {
+			return true
+		}
+		if em.Fn == cb {
+			return false
+		}
+		for _, call := range callsIn(cb) {
+			cal := call.Common().StaticCallee()
+			if cal == nil || !inUnit[cal] {
+				continue
+			}
+			if (cal == em.Fn || c.F.TransitiveCallees(cal)[em.Fn]) && inCycle(call.Block()) {
+				return true
+			}
+		}
+		return false
+	}
 	for _, em := range c.emissions() {
-		if em.Fn != cb {
+		if !inUnit[em.Fn] {
 			continue
 		}
 		switch {
@@ -1073,9 +1115,9 @@ func ruleVD13(c *Ctx) {
 		c.bad(fn, "epic-and-tasks", c.FnPos(cb), "plan callback lacks a new_epic or a new_task emission")
 		return
 	}
-	c.check(!inCycle(epic.Call.Block()), fn, "one-epic", c.Pos(epic.Call.Pos()), "exactly one epic event (not in a loop)", "the epic event is emitted in a loop")
+	c.check(!siteLoops(epic), fn, "one-epic", c.Pos(epic.Call.Pos()), "exactly one epic event (not in a loop)", "the epic event is emitted in a loop")
 	// task emission: inside the range loop over input.Tasks, no extra condition
-	c.check(inCycle(task.Call.Block()), fn, "task-per-entry", c.Pos(task.Call.Pos()), "task events are emitted in the loop over the input tasks", "new_task is not emitted per input entry")
+	c.check(siteLoops(task), fn, "task-per-entry", c.Pos(task.Call.Pos()), "task events are emitted in the loop over the input tasks", "new_task is not emitted per input entry")
 	c.check(constStr(task.Fields["State"]) == "todo" && constStr(epic.Fields["State"]) == "todo", fn, "tasks-start-todo", c.Pos(task.Call.Pos()), "State is the constant todo", "a planned item is created in a state other than todo")
 	c.check(task.Fields["EpicID"] != nil && epic.Fields["ID"] != nil && c.canon(task.Fields["EpicID"]) == c.canon(epic.Fields["ID"]), fn, "tasks-inside-the-epic", c.Pos(task.Call.Pos()), "each task's EpicID is the epic event's ID", "a planned task's EpicID is not the id of the epic created by the same plan")
 	if s, ok := constString(epic.Fields["EpicID"]); !ok || s != "" {
@@ -1085,23 +1127,25 @@ func ruleVD13(c *Ctx) {
 	}
 	// reply ids are the event ids: out.Epic.ID stored value == epic ID value; planTaskOutput.ID == task ID
 	replyEpic, replyTask := false, false
-	eachInstr(cb, func(r instrRef) {
-		st, ok := r.In.(*ssa.Store)
-		if !ok {
-			return
-		}
-		fa, ok := st.Addr.(*ssa.FieldAddr)
-		if !ok || fieldName(fa.X.Type(), fa.Field) != "ID" {
-			return
-		}
-		tn := namedTypeName(fa.X.Type())
-		if tn == "ergo.planEntityOutput" && c.canon(st.Val) == c.canon(epic.Fields["ID"]) {
-			replyEpic = true
-		}
-		if tn == "ergo.planTaskOutput" && c.canon(st.Val) == c.canon(task.Fields["ID"]) {
-			replyTask = true
-		}
-	})
+	for _, g := range unit {
+		eachInstr(g, func(r instrRef) {
+			st, ok := r.In.(*ssa.Store)
+			if !ok {
+				return
+			}
+			fa, ok := st.Addr.(*ssa.FieldAddr)
+			if !ok || fieldName(fa.X.Type(), fa.Field) != "ID" {
+				return
+			}
+			tn := namedTypeName(fa.X.Type())
+			if tn == "ergo.planEntityOutput" && c.canon(st.Val) == c.canon(epic.Fields["ID"]) {
+				replyEpic = true
+			}
+			if tn == "ergo.planTaskOutput" && c.canon(st.Val) == c.canon(task.Fields["ID"]) {
+				replyTask = true
+			}
+		})
+	}
 	c.check(replyEpic && replyTask, fn, "reply-ids-are-event-ids", c.FnPos(cb), "the reply's epic and task ids are the same values as the committed events' ids", fmt.Sprintf("reply ids differ from the committed ids (epic=%v task=%v)", replyEpic, replyTask))
 	// titles and bodies: loads of the input pointers, no string transformation
 	okText := true
@@ -1122,27 +1166,47 @@ func ruleVD13(c *Ctx) {
 }
 
 // textIsInputLoad: v is *ptr where ptr is a field of the parsed input (Title/Body), or phi of that and "".
-func textIsInputLoad(v ssa.Value) bool {
+func textIsInputLoad(v ssa.Value) bool { return textIsInputLoadE(v, nil) }
+
+// textIsInputLoadE: the same with an accessor's parameters bound to its call's arguments.
+func textIsInputLoadE(v ssa.Value, e env) bool {
 	v = strip(v)
 	if cl, ok := v.(*ssa.Call); ok {
-		// an accessor such as GetBody(): every return is the field's string or ""
+		// an accessor such as GetBody() or stringOrEmpty(input.Body): every return is the field's string or ""
 		h := cl.Call.StaticCallee()
 		if h == nil || h.Blocks == nil || curProg == nil || !curProg.InModule(h) {
 			return false
 		}
+		e2 := env{}
+		for i, prm := range h.Params {
+			if i < len(cl.Call.Args) {
+				e2[prm] = resolveEnv(cl.Call.Args[i], e)
+			}
+		}
 		for _, r := range returnsOf(h) {
-			if len(r.Results) != 1 || !textIsInputLoad(r.Results[0]) {
+			if len(r.Results) != 1 || !textIsInputLoadE(r.Results[0], e2) {
 				return false
 			}
 		}
 		return true
 	}
+	if u, ok := v.(*ssa.UnOp); ok && u.Op == token.MUL {
+		// *p with p an accessor's *string parameter: the argument must be the input's Title/Body pointer field
+		if prm, isPrm := u.X.(*ssa.Parameter); isPrm {
+			if a, bound := e[prm]; bound {
+				if _, n, ok := fieldLoad(strip(a)); ok {
+					return n == "Title" || n == "Body"
+				}
+			}
+			return false
+		}
+	}
 	switch x := v.(type) {
 	case *ssa.Const:
 		return constStr(x) == "" && x.Value != nil
 	case *ssa.Phi:
-		for _, e := range x.Edges {
-			if !textIsInputLoad(e) {
+		for _, ed := range x.Edges {
+			if !textIsInputLoadE(ed, e) {
 				return false
 			}
 		}
